@@ -91,13 +91,17 @@ CLAIMED = {
              "printing of a file (relation FileToks over every production: structs with fields/ids/types/parameters, enums, bindings with "
              "aliases, extension fields and signal blocks, services with methods, devices, module imports; every choice of the optional "
              "separators; arbitrary line numbers; types and values nested to any depth) parses back to exactly that file, and fuel is never the "
-             "reason for an error; one default binding per struct. The character level (lexer: whitespace, comments) and the agreement of the real "
-             "Lark/Earley front end with the reference parser are covered by the tie: the real front end, the Lean reference front end (lexer + "
+             "reason for an error; one default binding per struct. Character level: C07_lex_print - the reference lexer maps every printing of a "
+             "token list (relation Render: any run of spaces, tabs, line feeds, // and /* */ comments before each token and at the end; "
+             "identifiers, numbers with sign/fraction/exponent, strings with escapes, the 13 symbols; each token followed by something that "
+             "cannot continue it) back to that list with the line every token starts on; C07_text_to_file composes both levels. The agreement "
+             "of the real Lark/Earley front end with the reference front end is covered by the tie: the real front end, the Lean reference front end (lexer + "
              "parser + transformer actions) and the printed description are compared on generated texts over every production under canonical, "
              "dense and random formatting, strings with escapes included.",
-        note="Partial in one respect: text -> tokens (lexing, formatting invariance) is not proved, only its line bookkeeping (lex_lines); "
-             "Lark's Earley engine is not modelled. Domain: word-like tokens separated, parameters written with parentheses.",
-        technique="Lean 4 proof (parse-print inverse for the whole grammar at token level) + three-way differential check",
+        note="Partial in one respect: Lark's Earley engine is not modelled - the theorems are about the reference front end, which the real one "
+             "is compared with on every run. Domain: word-like tokens separated, parameters written with parentheses; numbers start with a "
+             "digit or a sign.",
+        technique="Lean 4 proof (parse-print inverse for the whole grammar, token and character level) + three-way differential check",
         ref="DESIGN.md section 8, C07"),
     "C08": dict(
         text="Lean theorems about the reference front end (parser + transformer actions folded in source order + module loading over an abstract file "
